@@ -401,6 +401,10 @@ class SoftwareSwitchBase (object):
     """
     Handles an OFPT_QUEUE_GET_CONFIG_REQUEST message.
     """
+    if ofp.port not in self.ports:
+      self.send_error(type=OFPET_QUEUE_OP_FAILED, code=OFPQOFC_BAD_PORT,
+                      ofp=ofp, connection=connection)
+      return
     reply = ofp_queue_get_config_reply(xid=ofp.xid, port=ofp.port, queues=[])
     self.log.debug("Sending queue get config reply %s", reply)
     self.send(reply)
